@@ -295,9 +295,16 @@ def blocking_clause_rule(chk, repo, rule, rel="sat.py", qual="model_count"):
     src = it
     if isinstance(it, ast.Name) and it.id in assigns and len(assigns[it.id]) == 1:
         src = assigns[it.id][0]
-    ok_iter = isinstance(src, ast.Call) and dotted(src.func) == f"{cparam}.startpoints" and not src.args and not src.keywords and not gen.ifs
-    chk.ob(rule + ".ranges-over-startpoints", f"{rel}::{qual}::blocking clause iterates", ok_iter, file=rel, func=qual, line=call.lineno, fact={"iterates_over": norm(src)[:60]},
-           expect=f"{cparam}.startpoints() of the counted circuit (inputs and blackbox outputs), unfiltered")
+    # judged only when the source is recognisably a query on the counted circuit (c.startpoints() - or c.inputs(), c.nodes() ...);
+    # a hoisted list of positions, a helper or a generator is another way of writing it that this rule cannot read: it abstains
+    # and C08.B.value decides
+    is_query = isinstance(src, ast.Call) and (dotted(src.func) or "").startswith(f"{cparam}.") and not src.args and not src.keywords
+    if is_query:
+        ok_iter = dotted(src.func) == f"{cparam}.startpoints" and not gen.ifs
+        chk.ob(rule + ".ranges-over-startpoints", f"{rel}::{qual}::blocking clause iterates", ok_iter, file=rel, func=qual, line=call.lineno, fact={"iterates_over": norm(src)[:60], "filtered": bool(gen.ifs)},
+               expect=f"{cparam}.startpoints() of the counted circuit (inputs and blackbox outputs), unfiltered")
+    else:
+        chk.note(f"{rule}.ranges-over-startpoints: the blocking clause iterates over `{norm(src)[:50]}`, not directly over a query on the circuit; abstains (C08.B.value decides)")
     elt = comp.elt
     tgt = gen.target.id if isinstance(gen.target, ast.Name) else None
     neg = isinstance(elt, ast.UnaryOp) and isinstance(elt.op, ast.USub)
@@ -311,8 +318,13 @@ def blocking_clause_rule(chk, repo, rule, rel="sat.py", qual="model_count"):
         mv = sub.value
         if isinstance(mv, ast.Name) and mv.id in assigns:
             model_ok = any(isinstance(v, ast.Call) and method_name(v) == "get_model" for v in assigns[mv.id])
-    chk.ob(rule + ".negated-model-literal", f"{rel}::{qual}::blocking literal", neg and idx_ok and model_ok, file=rel, func=qual, line=call.lineno,
-           fact={"element": norm(elt)[:80], "negated": neg, "index_is_id_minus_1": idx_ok, "from_get_model": model_ok}, expect="-model[variables.id(n) - 1] with model = solver.get_model()")
+    # judged only when the element is recognisably `[-]model[<arithmetic on variables.id(n)>]`
+    has_id_call = isinstance(sub, ast.Subscript) and any(isinstance(x, ast.Call) and method_name(x) == "id" for x in ast.walk(sub.slice))
+    if has_id_call and model_ok:
+        chk.ob(rule + ".negated-model-literal", f"{rel}::{qual}::blocking literal", neg and idx_ok, file=rel, func=qual, line=call.lineno,
+               fact={"element": norm(elt)[:80], "negated": neg, "index_is_id_minus_1": idx_ok, "from_get_model": model_ok}, expect="-model[variables.id(n) - 1] with model = solver.get_model()")
+    else:
+        chk.note(f"{rule}.negated-model-literal: blocking literal `{norm(elt)[:50]}` is not of the form model[variables.id(n) - 1]; abstains (C08.B.value decides)")
     return True
 
 
@@ -358,22 +370,33 @@ def miter_template_rule(chk, repo, rule, rel="tx.py", qual="miter"):
         return False
 
     def prefixes_in(listnode, loopvar):
+        """(recognised, prefixes): recognised only for a literal list of f-strings '<prefix>_{loopvar}' over the two copy
+        prefixes - any other way of naming the images (a helper, a hoisted tuple of names) is not judged here."""
         out = set()
-        if isinstance(listnode, (ast.List, ast.Tuple)):
-            for e in listnode.elts:
-                t = fstring_template(e)
-                if t:
-                    for p in (p0, p1):
-                        if t == f"{p}_{{{loopvar}}}":
-                            out.add(p)
-        return out
+        if not isinstance(listnode, (ast.List, ast.Tuple)) or not listnode.elts:
+            return False, out
+        for e in listnode.elts:
+            t = fstring_template(e)
+            hit = [p for p in (p0, p1) if t == f"{p}_{{{loopvar}}}"]
+            if not hit:
+                return False, out
+            out.add(hit[0])
+        return True, out
 
     lv = tie[2].target.id if isinstance(tie[2].target, ast.Name) else None
-    chk.ob(rule + ".tie-feeds-both-copies", f"{rel}::{qual}::tie", prefixes_in(tie[1], lv) == {p0, p1}, file=rel, func=qual, line=tie[0].lineno,
-           fact={"fanout": norm(tie[1])[:80]}, expect=f"each tied input drives its image in both copies ({p0}_n and {p1}_n)")
+    rec, pf = prefixes_in(tie[1], lv)
+    if rec:
+        chk.ob(rule + ".tie-feeds-both-copies", f"{rel}::{qual}::tie", pf == {p0, p1}, file=rel, func=qual, line=tie[0].lineno,
+               fact={"fanout": norm(tie[1])[:80]}, expect=f"each tied input drives its image in both copies ({p0}_n and {p1}_n)")
+    else:
+        chk.note(f"{rule}.tie-feeds-both-copies: fan-out of the tie input is not a literal list of '<prefix>_{{n}}' names; abstains (C04.F decides)")
     lv = comparator[4].target.id if isinstance(comparator[4].target, ast.Name) else None
-    chk.ob(rule + ".comparator-sees-both-copies", f"{rel}::{qual}::comparator", prefixes_in(comparator[2], lv) == {p0, p1}, file=rel, func=qual, line=comparator[0].lineno,
-           fact={"fanin": norm(comparator[2])[:80]}, expect=f"each comparator reads the endpoint's image in both copies")
+    rec, pf = prefixes_in(comparator[2], lv)
+    if rec:
+        chk.ob(rule + ".comparator-sees-both-copies", f"{rel}::{qual}::comparator", pf == {p0, p1}, file=rel, func=qual, line=comparator[0].lineno,
+               fact={"fanin": norm(comparator[2])[:80]}, expect=f"each comparator reads the endpoint's image in both copies")
+    else:
+        chk.note(f"{rule}.comparator-sees-both-copies: fan-in of the comparator is not a literal list of '<prefix>_{{n}}' names; abstains (C04.F decides)")
     # gate algebra
     ctype = comparator[1]
     tl = collector[1]
